@@ -225,11 +225,12 @@ func CreateCertificate(template, parent *Certificate, publicKey *sm2.PublicKey, 
 
 	c.Raw = tbsCertContents
 
+	// An SM2 key signs the to-be-signed bytes themselves (ZA and SM3 are applied
+	// by the signer, and verification recomputes them from the raw bytes); every
+	// other key signs their digest. The choice follows the signer's key, which is
+	// what verification looks at, not the algorithm requested in the template.
 	digest := tbsCertContents
-	switch template.SignatureAlgorithm {
-	case SM2WithSM3, SM2WithSHA1, SM2WithSHA256:
-		break
-	default:
+	if _, isSM2 := signer.Public().(*sm2.PublicKey); !isSM2 {
 		h := hashFunc.New()
 		h.Write(tbsCertContents)
 		digest = h.Sum(nil)
